@@ -228,3 +228,15 @@ F = {name: sp.Function(name) for name in (
 
 def fresh_index(name, **assump):
     return sp.Symbol(name, integer=True, nonnegative=True, **assump)
+
+
+ITE_F = sp.Function("ITE_")
+
+
+def mk_ite(cond, a, b):
+    """Piecewise((a, cond), (b, True)), falling back to an opaque ITE_ application when sympy cannot build
+    the Piecewise (conditions that themselves contain Piecewise terms trip a sympy rewriting bug)."""
+    try:
+        return sp.Piecewise((a, cond), (b, True))
+    except Exception:
+        return ITE_F(cond, a, b)
